@@ -435,7 +435,15 @@ def mutate_strict(bb: Backbone, comb, protected):
         s, e, alt = v.trimmed()
         for i in occ:
             lo, hi = i, i + (v.end - v.start)
-            for (pl, ph) in protected:
+            for pz in protected:
+                pl, ph = pz[0], pz[1]
+                if len(pz) > 2 and v.kind == 'INDEL':
+                    # start-codon zone: an indel anchored on the last base of the start codon changes only what follows
+                    # the start codon (the tool rewrites it in end-inclusion form and applies it): judge its trimmed span
+                    tl, th = i + (s - v.start), i + (e - v.start)
+                    if tl < ph and (th > pl or tl == th and tl > pl):
+                        return None
+                    continue
                 if lo < ph and hi > pl:
                     return None
             edits.append((i + (s - v.start), i + (e - v.start), alt))
@@ -466,7 +474,7 @@ def expected_main(ref: refgen.Ref, tx: str, small, as_recs, st: Settings):
     def prot_for(bb, orf_start, cds_end):
         pr = [(len(bb.seq) - 1, len(bb.seq))]
         if tm.coding:
-            pr.append((0, orf_start + 3))
+            pr.append((0, orf_start + 3, 'trim'))
         else:
             pr.append((0, 3))
         if tm.nf3:
